@@ -2,6 +2,8 @@ CONSTANTS
   RecheckAfterTemplate = TRUE
   MaxAdded = 3
   Thresholds = {0, 1, 2}
+  IncomingSolved = {FALSE}
+  ResetIncoming = TRUE
   ConfStrict = TRUE
 SPECIFICATION Spec
 INVARIANT C01_SolvedBalanced
